@@ -700,6 +700,56 @@ pub fn families(tier: Tier, variant: &str) -> Vec<Family> {
         }));
     }
     {
+        // documents whose node budget (length / 2 + 2) lies around the switch from the thread-local
+        // to the heap node buffer (196608 nodes): parsed (whole input, and as element of a typed
+        // Vec), dropped, nothing may stay allocated
+        let lens: Vec<usize> = if q { (393205..=393220).collect() } else { (393150..=393300).collect() };
+        v.push(Family::of_vec("fenced/documents-at-the-node-buffer-threshold", lens, |len, ctx| {
+            crate::props::c01::warm_up();
+            let len = *len;
+            let o = fence::on_fresh_thread(16 << 20, move || -> Result<(), String> {
+                let mut s = String::with_capacity(len + 8);
+                s.push('[');
+                while s.len() + 4 <= len {
+                    s.push_str("1,");
+                }
+                s.push('1');
+                while s.len() + 1 < len {
+                    s.push(' ');
+                }
+                s.push(']');
+                if s.len() != len {
+                    return Err(format!("harness: built {} bytes instead of {len}", s.len()));
+                }
+                let v: Value = sonic_rs::from_str(&s).map_err(|e| e.to_string())?;
+                let n = v.as_array().map(|a| a.len()).unwrap_or(0);
+                drop(v);
+                let wrapped = format!("[{s}]");
+                let vs: Vec<Value> = sonic_rs::from_str(&wrapped).map_err(|e| e.to_string())?;
+                drop(wrapped);
+                let n2 = vs[0].as_array().map(|a| a.len()).unwrap_or(0);
+                drop(vs);
+                drop(s);
+                if n == 0 || n != n2 {
+                    return Err(format!("element counts {n} / {n2}"));
+                }
+                Ok(())
+            });
+            ctx.state();
+            ctx.calls(2);
+            ctx.nontrivial();
+            match o.result {
+                Ok(Ok(())) if o.leaked_allocs == 0 => ctx.outcome("threshold:released"),
+                Ok(Ok(())) => {
+                    ctx.outcome("VIOL:leak");
+                    ctx.violation("leak-after-last-drop", json!({"case": {"document_bytes": len}, "live_allocations_left": o.leaked_allocs}));
+                }
+                Ok(Err(m)) => ctx.violation("threshold-document", json!({"document_bytes": len, "mismatch": m})),
+                Err(p) => ctx.violation("panic/threshold-document", json!({"document_bytes": len, "panic": p})),
+            }
+        }));
+    }
+    {
         // the heap node-buffer path (document > 3 MiB of node budget), fenced
         use Op::*;
         let big: Vec<Vec<Op>> = vec![
